@@ -610,6 +610,49 @@ impl Property for C13 {
     fn max_shrink_iters(_t: Tier) -> u32 {
         3000
     }
+    fn extra(tier: Tier, _env: &mut Env, _seed: u64) -> Extra {
+        // whole-process scripts: the unmodified release binary against a fake chronyd socket in a
+        // private mount namespace, in real time (all scripts run concurrently)
+        let mut ex = Extra::default();
+        if !std::path::Path::new(crate::props::process::DAEMON_BIN).exists() {
+            ex.label("whole-process:daemon-binary-not-built");
+            return ex;
+        }
+        let scripts = crate::props::wholeproc::standard_scripts(tier == Tier::Thorough);
+        let results: Vec<(crate::props::wholeproc::Script, Result<u64, String>)> = std::thread::scope(|sc| {
+            let hs: Vec<_> = scripts
+                .iter()
+                .cloned()
+                .map(|s| {
+                    sc.spawn(move || {
+                        let r = crate::props::wholeproc::run_script(&s);
+                        tick();
+                        (s, r)
+                    })
+                })
+                .collect();
+            hs.into_iter().filter_map(|h| h.join().ok()).collect()
+        });
+        for (s, r) in results {
+            match r {
+                Ok(n) => {
+                    ex.evaluations += n;
+                    ex.label("whole-process:script-ok");
+                    ex.nontrivial_hashes.push(hash_str(&serde_json::to_string(&s).unwrap()));
+                    if ex.samples.is_empty() {
+                        ex.samples.push(serde_json::json!({"whole_process_script": s, "status_samples_judged": n}));
+                    }
+                }
+                Err(m) if m.starts_with("harness") => ex.label("whole-process:inconclusive"),
+                Err(m) => {
+                    if ex.failure.is_none() {
+                        ex.failure = Some((format!("whole-process script {:?}: {}", s, m), serde_json::json!({"whole_process_script": s})));
+                    }
+                }
+            }
+        }
+        ex
+    }
 }
 
 // ------------------------------------------------------------------------------------------------
